@@ -31,9 +31,9 @@ REPO = os.environ.get("IPR_REPO", "/repo")
 # AST loading
 # ---------------------------------------------------------------------------
 def dump_ast(tu, std="-std=c++20"):
+    src = tu if os.path.isabs(tu) else os.path.join(REPO, "src", tu)
     cmd = ["clang++", std, "-I", os.path.join(REPO, "include"), "-fsyntax-only", "-w",
-           "-Xclang", "-ast-dump=json", "-Xclang", "-ast-dump-filter=ipr",
-           os.path.join(REPO, "src", tu)]
+           "-Xclang", "-ast-dump=json", "-Xclang", "-ast-dump-filter=ipr", src]
     p = subprocess.run(cmd, stdout=subprocess.PIPE, stderr=subprocess.PIPE, text=True)
     if p.returncode != 0:
         raise RuntimeError("clang failed on %s:\n%s" % (tu, p.stderr[-3000:]))
@@ -55,7 +55,7 @@ def walk(n, path=()):
     yield n, path
     for c in n.get("inner", []) or []:
         if isinstance(c, dict):
-            yield from walk(c, path + (n.get("name") or n.get("kind"),))
+            yield from walk(c, path + (n.get("name") or "#" + str(n.get("kind")),))
 
 
 def children(n, kind=None):
@@ -97,6 +97,7 @@ class Ast:
     def __init__(self, objs):
         self.objs = objs
         self.ids = {}
+        self.paths = {}
         self.nodes = []
         for o in objs:
             for n, p in walk(o):
@@ -106,6 +107,7 @@ class Ast:
                     old = self.ids.get(n["id"])
                     if old is None:
                         self.ids[n["id"]] = n
+                        self.paths[n["id"]] = p
 
     def find(self, kind, name=None):
         for n, p in self.nodes:
@@ -336,13 +338,12 @@ def statics(asts):
                 continue
             loc_file = None
             # is it at namespace scope or a static local / static member?
-            in_function = any(x in ("CompoundStmt", "DeclStmt") for x in p) or \
-                any(isinstance(x, str) and x in ("CompoundStmt",) for x in p)
+            in_function = any(x in ("#CompoundStmt", "#DeclStmt") for x in p)
             sc = n.get("storageClass")
             is_static_local = in_function and sc == "static"
             if in_function and not is_static_local:
                 continue
-            if "ParmVarDecl" in p:
+            if "#ParmVarDecl" in p:
                 continue
             # skip template patterns' dependent decls and class-scope non-static
             t = n["type"]["qualType"]
@@ -391,6 +392,149 @@ def store_facts(ast):
                 c.get("kind") == "CXXDestructorDecl" and not c.get("isImplicit") for c in children(n))}
     return out
 
+
+
+# ---------------------------------------------------------------------------
+# derived (inline convenience) operations of the interface, as expression trees
+# ---------------------------------------------------------------------------
+PASS_THROUGH = ("ImplicitCastExpr", "ParenExpr", "MaterializeTemporaryExpr", "ExprWithCleanups", "CXXBindTemporaryExpr",
+                "CXXFunctionalCastExpr", "CXXStaticCastExpr", "ConstantExpr")
+
+
+def class_key(path):
+    """('ipr','Sequence','Sequence','Iterator') -> 'Sequence::Iterator'"""
+    parts = [x for x in path if isinstance(x, str) and x not in ("ipr",) and not x.startswith("#")]
+    out = []
+    for x in parts:
+        if not out or out[-1] != x:
+            out.append(x)
+    return "::".join(out)
+
+
+def cexpr(ast, n, params):
+    k = n.get("kind")
+    ch = children(n)
+    if k in PASS_THROUGH:
+        return cexpr(ast, ch[-1], params) if ch else ["CUnknown", k]
+    if k == "CXXThisExpr":
+        return ["CThis"]
+    if k == "IntegerLiteral":
+        return ["CInt", int(n.get("value", "0"))]
+    if k == "CXXBoolLiteralExpr":
+        return ["CBool", bool(n.get("value"))]
+    if k == "DeclRefExpr":
+        rd = n.get("referencedDecl", {})
+        if rd.get("kind") == "ParmVarDecl":
+            name = rd.get("name")
+            return ["CParam", params.index(name) if name in params else 99]
+        return ["CUnknown", "ref:" + str(rd.get("name"))]
+    if k == "UnaryOperator":
+        return ["CUn", n.get("opcode"), cexpr(ast, ch[0], params)]
+    if k == "BinaryOperator":
+        return ["CBin", n.get("opcode"), cexpr(ast, ch[0], params), cexpr(ast, ch[1], params)]
+    if k == "MemberExpr":
+        # a data member access (calls are handled at the call node)
+        return ["CField", n.get("name"), cexpr(ast, ch[0], params) if ch else ["CThis"]]
+    if k == "CXXMemberCallExpr":
+        callee = ch[0]
+        while callee.get("kind") in PASS_THROUGH:
+            callee = children(callee)[-1]
+        args = [cexpr(ast, a, params) for a in ch[1:] if a.get("kind") != "CXXDefaultArgExpr"]
+        if callee.get("kind") == "MemberExpr":
+            mid = callee.get("referencedMemberDecl")
+            d = ast.ids.get(mid)
+            owner = class_key(ast.paths.get(mid, ())) if d is not None else "?"
+            recv = cexpr(ast, children(callee)[0], params) if children(callee) else ["CThis"]
+            if d is None:
+                owner = "ext"          # a member of a class outside namespace ipr (std::u8string_view, ...)
+            elif owner in ("", "?"):
+                return ["CUnknown", "unresolved-call:" + str(callee.get("name"))]
+            return ["CCall", owner + "::" + callee.get("name", "?"), recv, args]
+        return ["CUnknown", "call"]
+    if k == "CXXOperatorCallExpr":
+        # first child is the callee (operator reference), the rest are the operands
+        callee = ch[0]
+        opname = "?"
+        owner = ""
+        for m, _ in walk(callee):
+            if m.get("kind") == "DeclRefExpr":
+                rd = m.get("referencedDecl", {})
+                opname = rd.get("name", "?")
+                owner = class_key(ast.paths.get(rd.get("id"), ()))
+                break
+        if opname == "?":
+            return ["CUnknown", "unresolved-operator"]
+        return ["COp", (owner + "::" if owner else "") + opname, [cexpr(ast, a, params) for a in ch[1:]]]
+    if k in ("CXXConstructExpr", "InitListExpr", "CXXTemporaryObjectExpr"):
+        if k == "CXXConstructExpr" and len(ch) == 1 and n.get("ctorType", {}).get("qualType", "").count("(const") == 1 and \
+                "&)" in n.get("ctorType", {}).get("qualType", "") and not n.get("list"):
+            return cexpr(ast, ch[0], params)            # copy construction of the result
+        return ["CCons", [cexpr(ast, a, params) for a in ch]]
+    if k == "CallExpr":
+        callee = ch[0]
+        name = "?"
+        for m, _ in walk(callee):
+            if m.get("kind") == "DeclRefExpr":
+                name = m.get("referencedDecl", {}).get("name", "?")
+                break
+        if name == "?":
+            return ["CUnknown", "unresolved-call"]
+        return ["CCall", "::" + name, ["CThis"], [cexpr(ast, a, params) for a in ch[1:]]]
+    return ["CUnknown", str(k)]
+
+
+def derived_ops(ast):
+    """methods with a body (or defaulted comparison) of the interface classes"""
+    rows = {}
+    for n, p in ast.nodes:
+        if n.get("kind") not in ("CXXMethodDecl", "FunctionDecl"):
+            continue
+        if n.get("isImplicit"):
+            continue
+        names = [x for x in p if isinstance(x, str)]
+        if not names or names[0] != "ipr" or "impl" in names or "util" in names or "iprv_uses" in names or "cxx_form" in names:
+            continue
+        if "Visitor" in names or "Constant_visitor" in names or n.get("name") in ("accept", "visit"):
+            continue
+        cls = class_key(p)
+        key = (cls + "::" if cls else "::") + n.get("name", "?")
+        params = [c.get("name") for c in children(n, "ParmVarDecl")]
+        body = None
+        if n.get("explicitlyDefaulted") == "default" and n.get("name", "").startswith("operator"):
+            # memberwise comparison of the fields of the class
+            owner = ast.ids.get(n.get("parentDeclContextId"))
+            fields = []
+            for q, qp in ast.nodes:
+                if q.get("kind") == "FieldDecl" and class_key(qp) == cls:
+                    if q.get("name") not in fields:
+                        fields.append(q.get("name"))
+            body = ["CDefaultedEq", fields]
+        elif has_body(n):
+            if any(x in ("ClassTemplateDecl",) for x in p) and not any(x == "ClassTemplateSpecializationDecl" for x in p):
+                pass
+            stmts = children(body_of(n))
+            if len(stmts) == 1 and stmts[0].get("kind") == "ReturnStmt" and children(stmts[0]):
+                body = cexpr(ast, children(stmts[0])[0], params)
+            elif len(stmts) == 2 and stmts[1].get("kind") == "ReturnStmt" and n.get("name") in ("operator++", "operator--") and not params:
+                # ++index; return *this;   (pre-increment / pre-decrement)
+                inner = cexpr(ast, stmts[0], params)
+                body = ["CSeq", inner, cexpr(ast, children(stmts[1])[0], params)]
+            else:
+                body = ["CUnknown", "statements:%d" % len(stmts)]
+        else:
+            continue
+        # instantiations of one template must agree; dependent (uninstantiated) patterns are ignored
+        txt = json.dumps(body)
+        if "CUnknown" in txt and key in rows:
+            continue
+        if key in rows and rows[key]["body"] != body:
+            if "CUnknown" in json.dumps(rows[key]["body"]):
+                rows[key] = {"nparams": len(params), "body": body}
+            elif "CUnknown" not in txt:
+                rows[key] = {"nparams": len(params), "body": ["CUnknown", "instantiations-differ"]}
+            continue
+        rows.setdefault(key, {"nparams": len(params), "body": body})
+    return rows
 
 # ---------------------------------------------------------------------------
 # reflection probe (compiled with the real compiler)
@@ -446,9 +590,12 @@ def reflect(names, workdir):
 
 # ---------------------------------------------------------------------------
 def extract(workdir):
-    with cf.ThreadPoolExecutor(max_workers=5) as ex:
+    with cf.ThreadPoolExecutor(max_workers=6) as ex:
         futs = {tu: ex.submit(dump_ast, tu + ".cxx") for tu in ("impl", "traversal", "io", "utility", "interface")}
+        uses = os.path.join(os.path.dirname(os.path.dirname(os.path.abspath(__file__))), "harness", "derived_uses.cxx")
+        fut_uses = ex.submit(dump_ast, uses)
         asts = {tu: Ast(f.result()) for tu, f in futs.items()}
+        ast_uses = Ast(fut_uses.result())
     impl, trav = asts["impl"], asts["traversal"]
     facts = {}
     facts["categories"] = categories(impl)
@@ -464,6 +611,7 @@ def extract(workdir):
     facts["cmp_sites"] = cmp_sites(impl)
     facts["statics"] = statics(asts)
     facts["stores"] = store_facts(impl)
+    facts["derived"] = derived_ops(ast_uses)
     return facts, asts
 
 
